@@ -4,6 +4,10 @@ history-json: {"<i>": "text"} overrides the default history note."""
 import json, os, subprocess, sys
 prop = sys.argv[1]
 hist = json.loads(sys.argv[2]) if len(sys.argv) > 2 else {}
+try:
+    allhist = json.load(open('/verif/seed_history.json'))
+except Exception:
+    allhist = {}
 needs = json.load(open('/verif/seed_needs.json'))
 for l in open('/verif/work/seedres_%s.jsonl' % prop):
     r = json.loads(l)
@@ -13,5 +17,10 @@ for l in open('/verif/work/seedres_%s.jsonl' % prop):
     if not ok:
         print("SKIP (unconfirmed)", sid, {k: r[k] for k in ('applies','builds','demo_without_patch','demo_with_patch','suite_root','suite_tests')}); continue
     caught = r['check_caught'] == 'yes' and r['no_failing_input_found'] != 'yes'
-    note = hist.get(i, "caught by the check as first delivered by its builder" if caught else ("reported only as a broken tie (no failing input) by the first version" if r['check_caught'] == 'yes' else "MISSED by the first version"))
+    old = None
+    mp = '/verif/seeded/%s/meta.json' % sid
+    if os.path.exists(mp):
+        old = json.load(open(mp)).get('strengthening')
+    default = hist.get(i) or allhist.get(sid) or old
+    note = default or ("caught by the check as first delivered by its builder" if caught else ("reported only as a broken tie (no failing input) by the first version" if r['check_caught'] == 'yes' else "MISSED by the first version"))
     subprocess.check_call(['python3', '/verif/seed_register.py', prop, r['dir'], sid, json.dumps(r), needs.get(sid, ''), note])
